@@ -142,12 +142,35 @@ impl StaticOrDynamic {
         }
     }
 
-    pub fn replace(mut str: String, variables: &[(String, String)]) -> String {
-        for (name, value) in variables {
-            str = str.replace(format!("@{name}").as_str(), value.as_str())
+    pub fn replace(str: String, variables: &[(String, String)]) -> String {
+        if variables.is_empty() || !str.contains('@') {
+            return str;
         }
 
-        str
+        // Single pass over the template: a substituted value is never read again, so a value that looks like a
+        // reference to another variable (e.g. "@id") is kept as is, whatever the order of the variables
+        let mut result = String::with_capacity(str.len());
+        let mut rest = str.as_str();
+
+        while let Some(position) = rest.find('@') {
+            result.push_str(&rest[..position]);
+            let after = &rest[position + 1..];
+
+            match variables.iter().find(|(name, _)| after.starts_with(name.as_str())) {
+                Some((name, value)) => {
+                    result.push_str(value.as_str());
+                    rest = &after[name.len()..];
+                }
+                None => {
+                    result.push('@');
+                    rest = after;
+                }
+            }
+        }
+
+        result.push_str(rest);
+
+        result
     }
 
     pub fn compile(&self) -> bool {
